@@ -269,10 +269,12 @@ func c01OpRun(c *Case, rng *Rng, cfg c01OpCfg, initial, duringSync [][]c01Ev, af
 	// controlled window inside the Synchronization run's snapshot reads
 	var parkMu sync.Mutex
 	armed, parkCount := false, 0
+	counting, readsInRun := false, 0 // Snapshot() calls of the run the window is in
 	parkedCh := make(chan *verifsched.Arrival, 1)
 	arm := func(on bool) {
 		parkMu.Lock()
 		armed, parkCount = on, 0
+		counting = on
 		parkMu.Unlock()
 	}
 	if cfg.park != nil {
@@ -299,6 +301,9 @@ func c01OpRun(c *Case, rng *Rng, cfg c01OpCfg, initial, duringSync [][]c01Ev, af
 					}
 					if hold {
 						armed = false
+					}
+					if counting && a.Name == "snapshot.sort" {
+						readsInRun++
 					}
 					parkMu.Unlock()
 					if hold {
@@ -537,6 +542,21 @@ func c01OpRun(c *Case, rng *Rng, cfg c01OpCfg, initial, duringSync [][]c01Ev, af
 	}
 	// observations -> oracle lines
 	c.Op(fmt.Sprintf("cfg types=%s", joinStrs(cfg.types)), "ok")
+	if cfg.park != nil {
+		// correspondence with the model of UpdateSnapshots: the reads the Synchronization run made
+		parkMu.Lock()
+		n := readsInRun
+		parkMu.Unlock()
+		inc := "-"
+		if cfg.group != "" {
+			inc = "1" // a binding with a group includes itself
+		}
+		var reads []int
+		for i := 0; i < n; i++ {
+			reads = append(reads, 1)
+		}
+		c.Op("us 1:"+inc+":1", "reads="+joinInts(reads))
+	}
 	var runs []string
 	for _, e := range execs {
 		runs = append(runs, fmt.Sprintf("%s:%d", e.kinds, e.exit))
